@@ -103,21 +103,33 @@ def St.setCur (s : St) (T : String) (l : List ES) : St :=
 def upsertES (l : List ES) (e : ES) : List ES :=
   if l.any (fun x => x.id == e.id) then l.map (fun x => if x.id == e.id then e else x) else l ++ [e]
 
+/-- the event as topic `T` hands it to its handlers: previous level = level of the id's current state on
+`T`, or the carried one when `T` has no state for the id yet (see header) -/
+def evAt (s : St) (T : String) (ev : SEv) : SEv :=
+  { ev with prev := match (s.cur T).find? (fun x => x.id == ev.id) with
+      | some p => p.level
+      | none => ev.prev }
+
+/-- `Topic.collect` on `T`: store the state, hand the event to every recorder registered on `T`. -/
+def record (s : St) (T : String) (ev' : SEv) : St :=
+  let s1 : St := s.setCur T (upsertES (s.cur T) { id := ev'.id, level := ev'.level, time := ev'.time })
+  { s1 with log := s1.log ++ ((s1.recs.filter (fun (r : String × String) => r.1 == T)).map
+              (fun (r : String × String) => (r.2, T, ev'))) }
+
+/-- every spec handler of the topic whose match holds republishes to its targets (`f` = deliver one hop) -/
+def pubFold (f : St → String → St) (ev' : SEv) (specs : List Spec) (s : St) : St :=
+  specs.foldl (fun (acc : St) (sp : Spec) =>
+    match (matchTable.getD sp.midx .all).eval ev' with
+    | some true => sp.targets.foldl f acc
+    | _ => acc) s
+
 /-- `Service.Collect` on topic `T` with everything it triggers downstream. -/
 def deliver : Nat → St → String → SEv → St
   | 0, s, _, _ => { s with overflow := true }
   | fuel + 1, s, T, ev =>
-    let prev := match (s.cur T).find? (fun x => x.id == ev.id) with
-      | some p => p.level
-      | none => ev.prev            -- carried over (see header)
-    let ev' := { ev with prev := prev }
-    let s1 : St := s.setCur T (upsertES (s.cur T) { id := ev.id, level := ev.level, time := ev.time })
-    let s2 : St := { s1 with log := s1.log ++ ((s1.recs.filter (fun (r : String × String) => r.1 == T)).map
-                      (fun (r : String × String) => (r.2, T, ev'))) }
-    (s2.specs.filter (fun (sp : Spec) => sp.topic == T)).foldl (fun (acc : St) (sp : Spec) =>
-      match (matchTable.getD sp.midx .all).eval ev' with
-      | some true => sp.targets.foldl (fun (acc : St) t => deliver fuel acc t ev') acc
-      | _ => acc) s2
+    let ev' := evAt s T ev
+    let s2 := record s T ev'
+    pubFold (fun acc t => deliver fuel acc t ev') ev' (s2.specs.filter (fun (sp : Spec) => sp.topic == T)) s2
 
 inductive Op where
   | recorder (topic name : String)
